@@ -299,3 +299,49 @@ Section StepSkeletons.
              end.
   Qed.
 End StepSkeletons.
+
+(** * pypyr/pipeline.py :: Pipeline._run_pipeline — default groups, parser failure, StopPipeline scope *)
+Section PipelineSkeleton.
+  Variable rg : list val -> option string -> option string -> st -> R.
+  Variable rfail : string -> st -> R.
+
+  (** [steps_runner.run_failure_step_group(failure_group)] as the model sees it: without a (non-empty)
+      group name there is nothing to run (in the code the [assert] on the name, or the missing
+      group, ends inside the handler's own try/except) *)
+  Definition rfail_prim (fg : option string) (s : st) : R :=
+    match fg with
+    | Some (String a b) => rfail (String a b) s
+    | _ => (OOk, s)
+    end.
+
+  Lemma gen_run_pipeline_is_model parser parse groups success failure s :
+    gen_run_pipeline groups success failure (prepare_context parser parse) rg rfail_prim s
+    = run_pipeline_inner rg rfail parser parse groups success failure s.
+  Proof.
+    unfold gen_run_pipeline, run_pipeline_inner, rfail_prim. cbv zeta.
+    assert (P : forall s', prepare_context parser parse s' = (OOk, s') \/
+                      (exists s1, prepare_context parser parse s' = (OOk, s1)) \/
+                      (exists n m e s1, prepare_context parser parse s' = (ORaise (RExn n m e), s1)) \/
+                      (exists s1, prepare_context parser parse s' = (OUnsup, s1))).
+    { intros s'. unfold prepare_context. destruct parse as [args|]; [|now left].
+      destruct parser; [|now left]. destruct (vparse args) as [[[|kv d]|]|n m|]; simpl.
+      - now left.
+      - right; left; eauto.
+      - now left.
+      - right; right; left. unfold raise_new. eauto 10.
+      - right; right; right; eauto. }
+    destruct groups as [[|g gs]|]; destruct success as [[|a su]|]; destruct failure as [[|b fa]|];
+      simpl; rewrite ?andthen_ok_id;
+      (destruct (P s) as [E|[[s1 E]|[[n [m [e [s1 E]]]]|[s1 E]]]]; rewrite E; clear E; cbv beta iota;
+       try reflexivity;
+       rewrite ?andthen_ok_id;
+       try (match goal with |- context [rg ?a ?b ?c ?d] =>
+              destruct (rg a b c d) as [[|[n' m' e'|[| | |c'|c']]|c'|] s2]; reflexivity end);
+       try (simpl isinst; cbv iota; rewrite ?andthen_ok_id;
+            match goal with
+            | |- context [rfail ?a ?d] =>
+                destruct (rfail a d) as [[|[n' m' e'|[| | |c'|c']]|c'|] s2]; reflexivity
+            | _ => reflexivity
+            end)).
+  Qed.
+End PipelineSkeleton.
